@@ -260,6 +260,37 @@ let predict (c : string) (obs : string) : string * string * bool =
         else if cfield <> "c=eq" then "BAD:comp:malformed-observation"
         else "ok" in
       (pred, v, true)
+  | [ "first"; n; _; segs; offs_case; dur_us; _ ] ->
+      (* several instances taking their first token from a fresh real schedule at the same moment, many trials:
+         prediction = the fine-grained leaf model (Model/SchedLeafConc.v, doat_progs) with the callers one after the
+         other at t0 + a fresh Waiter each (Model/WaiterLeaf.v first_shots); verdict = spec_first_b on the bits *)
+      let (offs, _) = profile_offsets (z_of_int 0) (segments_of segs) in
+      let offs_model = if offs = [] then "-" else String.concat "," (List.map us_string offs) in
+      let zero = z_of_string "-62135596800000000000" and t0 = z_of_int 0 in
+      let d = z_of_zt (ZT.mul (ZT.of_string dur_us) (ZT.of_int 1000)) in
+      let pred =
+        (match first_shots wcurrent doat_progs offs d zero t0 (nat_of_int (int_of_string n)) with
+         | None -> "model-stuck"
+         | Some l ->
+             let now = List.filter (fun f -> f.fs_fired && zle f.fs_at t0) l in
+             let m = List.length now in
+             if m = 0 then "-/- c=0"
+             else String.make m '1' ^ "/" ^ String.concat "" (List.map (fun f -> bit (not f.fs_slow)) now) ^ " c=" ^ string_of_int m) in
+      let bools s = if s = "-" then [] else List.init (String.length s) (fun i -> s.[i] = '1') in
+      let v =
+        if offs_model <> offs_case then "BAD:first:case-offsets-differ-from-the-configured-profile model=" ^ offs_model
+        else match ofs with
+        | [ bits; _ ] when String.contains bits '/' ->
+            let k = String.index bits '/' in
+            let ahead = String.sub bits 0 k and slow = String.sub bits (k + 1) (String.length bits - k - 1) in
+            let wellformed x = x = "-" || (x <> "" && String.for_all (fun ch -> ch = '0' || ch = '1') x) in
+            if not (wellformed ahead && wellformed slow) then "BAD:first:malformed-observation"
+            else if spec_first_b (bools ahead) (bools slow) then "ok"
+            else if String.contains ahead '0' then "BAD:first:more-requests-fired-than-tokens-of-the-configured-profile-were-due"
+            else "BAD:first:judged-2s-late-within-2s-of-the-start-of-the-profile"
+        | [ "hang" ] -> "BAD:first:wait-did-not-return"
+        | _ -> "BAD:first:malformed-observation" in
+      (pred, v, true)
   | [ "eng"; d; toks; durs ] ->
       let discard = (d = "1") in
       let tl = csv_ms toks in
